@@ -150,7 +150,7 @@ Definition wf_enum (edition : N) (c : chain) : bool :=
   supported_edition edition && (is_editions edition || chain_empty c).
 
 (* every level that sets enum_type sets it to OPEN or CLOSED (the compiler does NOT enforce this:
-   ENUM_TYPE_UNKNOWN is accepted) *)
+   ENUM_TYPE_UNKNOWN is accepted); only the historical lemmas about the old IsClosed need it *)
 Definition enum_type_known (c : chain) : bool :=
   forallb (fun s => match fs_et s with
                     | Some v => (v =? ET_OPEN) || (v =? ET_CLOSED)
